@@ -240,6 +240,7 @@ class PointList(Node):
         grp = Node.to_h5(self,group)
         # Add data
         for f,t in zip(self.fields,self.types):
+            assert('/' not in f), f"field names can't contain '/' - HDF5 would read '{f}' as a path"
             group_current_field = grp.create_dataset(
                 f,
                 data = self.data[f]
